@@ -139,6 +139,15 @@ def smooth_with_real_aggregators(ctx: Ctx):
             rows.append(torch.cat([(torch.zeros_like(p) if gi is None else gi).reshape(-1) for gi, p in zip(g, l2)]))
     J = torch.stack(rows)
     v = A(J)
+    # conditioning of the aggregator AT this Jacobian: the two Jacobians (torchjd's sweeps, the twin's rows) agree to a few ulp
+    # only; what a relative perturbation of 4 ulp of J does to A(J) is allowed a hundredfold (pseudo-inverse based aggregators
+    # on nearly dependent rows amplify it: thorough tier, seed 1 — 6.7e-8 with IMTL-G on the unchanged tree)
+    pert = torch.tensor([[1.0 + 8.9e-16 * (1 if (r + c) % 2 else -1) for c in range(J.shape[1])] for r in range(J.shape[0])],
+                        dtype=J.dtype)
+    try:
+        sens = float((A(J * pert) - v).abs().max())
+    except Exception:  # noqa: BLE001
+        sens = 0.0
     ctx.case(("smooth", tuple(plan), name, chunk), nontrivial=True,
              sample={"smooth_program": plan, "aggregator": name, "chunk": chunk, "rows": int(J.shape[0])})
     ctx.count("smooth_aggregator", name)
@@ -147,7 +156,7 @@ def smooth_with_real_aggregators(ctx: Ctx):
         sl = v[off:off + q.numel()].reshape(q.shape)
         off += q.numel()
         err = float((p.grad - sl).abs().max())
-        if err > 1e-8 * max(1.0, float(sl.abs().max())):
+        if err > 1e-8 * max(1.0, float(sl.abs().max())) + 100 * sens:
             ctx.violation(f"backward with {name} on a smooth program {plan}: .grad differs from the slice of "
                           f"{name}(J) (J assembled by torch.autograd on a twin graph) by {err:.3e}",
                           {"program": plan, "aggregator": name, "chunk": chunk, "input_order": order})
